@@ -143,7 +143,23 @@ def dtype_variants(est_name, k, d):
       ctx.require('transform_arraylike_%s' % nm,
                   ctx.all_eq(est.transform(np.asarray(V)[:, 0].tolist() if nm == 'list' else np.asarray(V)[:, 0]),
                              est.transform(P[:, 0].astype(float)), tol=1e-9))
+    # unsigned / narrow integer query arrays: the difference must be formed on the numbers, not modulo 2^k
+    for dt, hi in ((np.uint8, 256), (np.uint16, 60000), (np.uint32, 100000), (np.int8, 128), (np.int16, 30000)):
+      Q = rs.randint(0, hi, size=(4, 2, d)).astype(dt)
+      nm = np.dtype(dt).name
+      refQ = est.pair_distance(Q.astype(float))
+      ctx.require('pair_distance_arraylike_%s' % nm, ctx.all_eq(est.pair_distance(Q), refQ, tol=1e-9))
+      ctx.require('metric_fun_dtype_%s' % nm, ctx.and_(ctx.eq(f(Q[0, 0], Q[0, 1]), refQ[0], tol=1e-9), ctx.eq(f(Q[0, 1], Q[0, 0]), refQ[0], tol=1e-9)))
+      ctx.require('transform_arraylike_%s' % nm, ctx.all_eq(est.transform(Q[:, 0]), est.transform(Q[:, 0].astype(float)), tol=1e-9))
+      ctx.require('score_pairs_arraylike_%s' % nm, ctx.all_eq(_quiet_score_pairs(est, Q), _quiet_score_pairs(est, Q.astype(float)), tol=1e-9))
   return fn
+
+
+def _quiet_score_pairs(est, P):
+  import warnings
+  with warnings.catch_warnings():
+    warnings.simplefilter('ignore')
+    return est.score_pairs(P)
 
 
 def cases(tier, seed):
